@@ -335,7 +335,15 @@ func (pConn *PFCPConn) handleSessionModificationRequest(msg message.Message) (me
 	// FIXME: since PacketForwardingRules doesn't store pointers,
 	//  we must also mark session QERs in addQERs.
 	//  We need a kind of refactoring to clean it up.
-	session.MarkSessionQer(addQERs)
+	// Marking addQERs on their own (only the QERs of this message) lost the level of an
+	// updated session QER: copy the level chosen among all QERs of the session instead.
+	for i := range addQERs {
+		for _, q := range session.qers {
+			if q.qerID == addQERs[i].qerID {
+				addQERs[i].qosLevel = q.qosLevel
+			}
+		}
+	}
 
 	updated := PacketForwardingRules{
 		pdrs: addPDRs,
